@@ -16,6 +16,18 @@ func (g *G) literal() string {
 			"18446744073709551615", "18446744073709551616", "18446744073709551617", "99999999999999999999", "-99999999999999999999",
 			"9223372036854775807", "9223372036854775808", "-9223372036854775809", "100000000000000000000", "27670116110564327424"}
 		return xs[g.pick(len(xs))]
+	case 4:
+		// the digits of a coefficient from the structured pool (Cmax and neighbours, 2^110, 2^113, 10^k +- 1, word-structured
+		// values ...) written as a numeral: the places where compose / reduce128 switch form are reached through text too
+		s := g.coef().String()
+		if g.chance(0.3) && len(s) > 1 {
+			p := 1 + g.pick(len(s)-1)
+			s = s[:p] + "." + s[p:]
+		}
+		if g.chance(0.5) {
+			s += fmt.Sprintf("e%d", []int{0, 1, -1, 6111, -6176, 6077, -6142, 300, -300}[g.pick(9)]+g.pick(5)-2)
+		}
+		return []string{"", "", "-", "+"}[g.pick(4)] + s
 	case 3:
 		// malformed late: a separator next to the point or the exponent marker (or doubled) after the first 19 digits,
 		// where the parser has switched to its wide accumulator
